@@ -135,11 +135,11 @@ def cases(tier, inst):
                 for value in (True, False):
                     for base in ("one", "join"):
                         for form in ("an", "infer"):
-                            yield ("const", node, "ra", base, form, True, ((j, value),))
+                            yield ("const", node, "ra", base, form, ((j, value),), True)
             if n >= 3:
                 for j, k_ in itertools.combinations(range(1, n), 2):
-                    yield ("const", node, "ra", "one", "infer", True, ((j, True), (k_, False)))
-                    yield ("const", node, "ar" if has_both(node) else "ra", "one", "an", True, ((j, False), (k_, True)))
+                    yield ("const", node, "ra", "one", "infer", ((j, True), (k_, False)), True)
+                    yield ("const", node, "ar" if has_both(node) else "ra", "one", "an", ((j, False), (k_, True)), True)
     # two variables x, y; every node's condition is over x only, over y only or a comparison of both (all assignments
     # of these kinds); conclusions name both variables; an `assignment` is a pair (x, y)
     for n in range(1, (3 if tier == "quick" else 4) + 1):
@@ -336,7 +336,7 @@ def make_and_eval_twice(case, inst):
     """build the rule query of `case` on fresh data and evaluate it twice -> ([obs1, obs2], expected)"""
     consts = None
     if case[0] == "const":
-        _, node, order, base, form, caching, consts = case
+        _, node, order, base, form, consts, caching = case
         consts = dict(consts)
     else:
         node, order, base, form, caching = case
@@ -513,7 +513,7 @@ def run_case(case, inst):
         order, base, form = "ra", "kjoin:" + "/".join(kinds) + ("+bind" if base_binds else "") + (
             "+concl=" + case[4] if len(case) == 6 else ""), "an"
     elif case[0] == "const":
-        _, node, order, base, form, caching, consts = case
+        _, node, order, base, form, consts, caching = case
         n = size(node)
         out, exp = make_and_eval_twice(case, inst)
         base = base + ":const=" + ",".join(f"{j}{'T' if v else 'F'}" for j, v in consts)
@@ -615,7 +615,7 @@ def describe(case, inst):
                 "rows1 = list(q.evaluate()); rows2 = list(q.evaluate())   # expected: eqlmc.props.c12.rdr_join")
     note = ""
     if case[0] == "const":
-        _, node, order, base, form, caching, consts = case
+        _, node, order, base, form, consts, caching = case
         note = ("# the condition x.t[j] == 1 of these branches is replaced by a plain constant: "
                 + ", ".join(f"branch {j}: {v}" for j, v in consts) + "\n")
     else:
